@@ -122,7 +122,7 @@ def run(ctx: Ctx) -> None:
         if kind == 0 or thorough:
             for lo in range(0, kmax + 1, 18):
                 src += fsrc.replace("__LO__", str(lo)).replace("__HI__", str(min(kmax, lo + 17)))
-                conds.append(Cond(f"finding_same_key_{kind}_{lo}", "finding", 1500, key=key, what=what))
+                conds.append(Cond(f"finding_same_key_{kind}_{lo}", "finding", 1500, key=key, keyfn=_key_from_replay, what=what))
         src = src.replace("__KIND__", str(kind)).replace("K2MAX", str(k2max)).replace("KMAX", str(kmax))
         ctx.ch_batch(f"c06sched_{name}", src, conds)
     ctx.bounds["two runners"] = (f"2 runner actors (real poll twin + real run twin): same key (TASK) - 2 preemptions, slices 0..{kmax} "
